@@ -31,6 +31,7 @@ FILES = {
     "m.dict": "// two includes\n#include 'inc1'\nown 1; // c\n#include 'inc2'\nres \"$shared + 1\";\n",
     "inc1": "shared 10;\nonly1 'one';\n",
     "inc2": "// second\nshared 20;\nonly2 'two';\n",
+    "model.xml": "<model><item id='1'>a</item><item>b</item><sub><x>1</x><x>2</x></sub></model>",
 }
 
 
@@ -59,9 +60,19 @@ def canon_sd(sd) -> dict:
             return f"<{kind}#{ranks[key]}:{text}>"
         return re.sub(r"(LINECOMMENT|BLOCKCOMMENT|INCLUDE|EXPRESSION|STRINGLITERAL)(\d{6})", rep, s)
 
+    def node(k: str):
+        # XML element keys carry a running node number drawn from the same counter (`000012_tag`): canonical by rank, too
+        m = re.match(r"(\d{6})_(.*)", k, flags=re.S)
+        if not m:
+            return ph(k)
+        key = ("NODE", m.group(1))
+        if key not in ranks:
+            ranks[key] = len([x for x in ranks if x[0] == "NODE"])
+        return f"<NODE#{ranks[key]}>_{m.group(2)}"
+
     def walk(v):
         if isinstance(v, dict):
-            return [[ph(k) if isinstance(k, str) else k, walk(x)] for k, x in v.items()]
+            return [[node(k) if isinstance(k, str) else k, walk(x)] for k, x in v.items()]
         if isinstance(v, list):
             return [walk(x) for x in v]
         if isinstance(v, str):
@@ -117,14 +128,20 @@ def do_op(td: Path, op: tuple, probe: bool = False):
 
 
 D1 = {"k": "a b", "n": {"p": [1, 2, "x y"], "q": None}, "z": 1.5}
+# dicts that carry per-document XML options (documented keys of `_xmlOpts`): the options of one document must not reach the next
+DX1 = {"_xmlOpts": {"_removeNodeNumbering": False, "_rootTag": "first"}, "a": 1, "b": {"c": "x"}}
+DX2 = {"_xmlOpts": {"_nameSpaces": {"p": "urn:one"}, "_rootTag": "second", "_rootAttributes": {"v": "1"}}, "a": 1}
 PREFIX_OPS = [("read", ("a.dict", "abs"), {}), ("read", ("a.dict", "rel"), {"order": True}), ("read", ("b.dict", "abs"), {"comments": False}),
               ("read", ("c.json", "rel"), {}), ("write", "w1", "w", D1, "abs"), ("write", "w1", "a", {"extra": "it's"}, "rel"),
               ("parse", ("b.dict", "abs"), {}), ("load", ("a.dict", "abs")), ("dump", "d1", D1), ("reset",), ("chdir", "proj/sub"), ("chdir", "elsewhere"),
-              ("touch", "past"), ("touch", "future"), ("touch", "same")]
+              ("touch", "past"), ("touch", "future"), ("touch", "same"),
+              ("write", "x1.xml", "w", DX1, "abs"), ("write", "x2.xml", "w", DX2, "rel"), ("read", ("model.xml", "abs"), {})]
 PROBES = [("read", ("a.dict", "abs"), {}), ("read", ("a.dict", "rel"), {"comments": False}), ("read", ("a.dict", "abs"), {"order": True}),
           ("read", ("c.json", "abs"), {}), ("write", "probe", "w", D1, "rel"), ("parse", ("a.dict", "rel"), {}), ("parse", ("a.dict", "abs"), {"order": True, "output": "json"}),
           ("load", ("a.dict", "rel")), ("dump", "pd", D1),
-          ("read", ("m.dict", "abs"), {}), ("read", ("m.dict", "rel"), {"comments": False}), ("parse", ("m.dict", "abs"), {})]
+          ("read", ("m.dict", "abs"), {}), ("read", ("m.dict", "rel"), {"comments": False}), ("parse", ("m.dict", "abs"), {}),
+          ("write", "probe.xml", "w", {"000001_a": 1, "000002_a": {"000003_b": "x y"}, "c": [1, 2]}, "rel"),
+          ("parse", ("model.xml", "abs"), {"output": "xml"}), ("read", ("model.xml", "rel"), {})]
 
 
 def run_history(start: int, cwd: str, prefix: list, probe: tuple):
